@@ -48,7 +48,15 @@ def g_cheap_rgb(lon, lat):
     return np.stack([v, (lat * 50.0 + 100).astype(np.uint8), v], axis=-1)
 
 
-SAMPLERS = {"scalar": g_scalar, "scalar2": g_scalar2, "rgb": g_rgb, "cheap": g_cheap, "cheap-rgb": g_cheap_rgb}
+def g_cap(lon, lat):
+    # defined only within ~50 degrees of (lon, lat) = (1.0, 0.4): whole tiles elsewhere are undefined
+    c = np.sin(lat) * np.sin(0.4) + np.cos(lat) * np.cos(0.4) * np.cos(lon - 1.0)
+    v = (200.0 + 30.0 * np.sin(2 * lon) + 20.0 * lat).astype(np.float32)
+    v[c < np.cos(np.radians(50.0))] = np.nan
+    return v
+
+
+SAMPLERS = {"cap": g_cap, "scalar": g_scalar, "scalar2": g_scalar2, "rgb": g_rgb, "cheap": g_cheap, "cheap-rgb": g_cheap_rgb}
 
 
 def ref_coords(n, x, y, planetary):
@@ -134,6 +142,15 @@ def serial_case(d, depth, planetary, fmt, mode, part):
                 toast.sample_layer_filtered(pio, lambda t: True, SAMPLERS[sampler], depth, coordsys=cs, parallel=1)
                 for p in allpos:
                     expected[p] = expected_tile(*p, planetary, sampler)
+            elif mode == "clobber-over-existing":
+                # an earlier complete sampling, then a clobbering re-sampling whose sampler is undefined over
+                # whole tiles: those tiles must not keep their old content (an all-undefined tile is not stored)
+                toast.sample_layer(pio, SAMPLERS["scalar"], depth, coordsys=cs, parallel=1)
+                toast.sample_layer(pio, SAMPLERS["cap"], depth, coordsys=cs, parallel=1)
+                for p in allpos:
+                    e = expected_tile(*p, planetary, "cap")
+                    if not np.all(np.isnan(e)):
+                        expected[p] = e
             elif mode == "update-partial":
                 # an earlier partial sampling (set S1), then a second one (set S2, overlapping) whose sampler
                 # is undefined in places: defined source pixels replace, undefined ones leave the old data
@@ -321,8 +338,10 @@ def run(tier, seed):
     for depth in depths:
         for planetary in (False, True):
             for fmt in ("png", "npy", "fits"):
-                for mode in ("clobber", "update-all", "update-partial"):
+                for mode in ("clobber", "update-all", "update-partial", "clobber-over-existing"):
                     if mode == "update-partial" and (fmt == "png" or depth == 0):
+                        continue
+                    if mode == "clobber-over-existing" and (fmt == "png" or depth < 2):
                         continue
                     if depth == 3 and (fmt == "png" or mode != "clobber"):
                         continue
